@@ -221,37 +221,329 @@ func rewriteFile(l *loader, pi *pkgInfo, f *ast.File) {
 		}}
 	}
 
+	// --- R8: scheduling points around operations that may block -------------------------
+	tokN := 0
+	newTok := func() *ast.Ident { tokN++; return ast.NewIdent(fmt.Sprintf("simT%d_%d", len(sites), tokN)) }
+	beginStmt := func(tok *ast.Ident) ast.Stmt {
+		return &ast.AssignStmt{Lhs: []ast.Expr{tok}, Tok: token.DEFINE, Rhs: []ast.Expr{&ast.CallExpr{Fun: simSel("BeginBlock")}}}
+	}
+	endStmt := func(tok *ast.Ident) ast.Stmt {
+		return &ast.ExprStmt{X: &ast.CallExpr{Fun: simSel("EndBlock"), Args: []ast.Expr{tok}}}
+	}
+	isChan := func(e ast.Expr) bool {
+		tv, ok := info.Types[e]
+		if !ok {
+			return false
+		}
+		_, is := tv.Type.Underlying().(*types.Chan)
+		return is
+	}
+	containsRecv := func(n ast.Node) bool {
+		found := false
+		ast.Inspect(n, func(m ast.Node) bool {
+			switch x := m.(type) {
+			case *ast.FuncLit:
+				return false
+			case *ast.UnaryExpr:
+				if x.Op == token.ARROW {
+					found = true
+				}
+			}
+			return !found
+		})
+		return found
+	}
+	// syncCall reports a direct call of a blocking sync method (Wait, Lock, RLock) or of
+	// (*sync.WaitGroup).Go in statement position.
+	syncCall := func(s ast.Stmt) (name string, call *ast.CallExpr) {
+		es, ok := s.(*ast.ExprStmt)
+		if !ok {
+			return "", nil
+		}
+		ce, ok := es.X.(*ast.CallExpr)
+		if !ok {
+			return "", nil
+		}
+		sel, ok := ce.Fun.(*ast.SelectorExpr)
+		if !ok {
+			return "", nil
+		}
+		fn, ok := info.Uses[sel.Sel].(*types.Func)
+		if !ok || fn.Pkg() == nil || fn.Pkg().Path() != "sync" {
+			return "", nil
+		}
+		switch fn.Name() {
+		case "Wait", "Lock", "RLock", "Go":
+			return fn.Name(), ce
+		}
+		return "", nil
+	}
+	// goCall builds simrt.Go(func(){ f(args) }) with f and args evaluated now, as `go` does.
+	goCall := func(call *ast.CallExpr) ast.Stmt {
+		var pre []ast.Stmt
+		tmp := func(e ast.Expr) ast.Expr {
+			if _, lit := e.(*ast.FuncLit); lit {
+				return e
+			}
+			if _, lit := e.(*ast.BasicLit); lit {
+				return e
+			}
+			id := newTok()
+			pre = append(pre, &ast.AssignStmt{Lhs: []ast.Expr{id}, Tok: token.DEFINE, Rhs: []ast.Expr{e}})
+			return id
+		}
+		nc := &ast.CallExpr{Fun: call.Fun, Ellipsis: call.Ellipsis}
+		if _, isSel := call.Fun.(*ast.SelectorExpr); !isSel {
+			if _, isId := call.Fun.(*ast.Ident); !isId {
+				nc.Fun = tmp(call.Fun)
+			}
+		}
+		for _, a := range call.Args {
+			nc.Args = append(nc.Args, tmp(a))
+		}
+		spawn := &ast.ExprStmt{X: &ast.CallExpr{Fun: simSel("Go"), Args: []ast.Expr{
+			&ast.FuncLit{Type: &ast.FuncType{Params: &ast.FieldList{}}, Body: &ast.BlockStmt{List: []ast.Stmt{&ast.ExprStmt{X: nc}}}},
+		}}}
+		if len(pre) == 0 {
+			return spawn
+		}
+		return &ast.BlockStmt{List: append(pre, spawn)}
+	}
+	// chanRange turns `for v := range ch { body }` into an explicit receive loop.
+	chanRange := func(rs *ast.RangeStmt, label *ast.Ident) ast.Stmt {
+		tok := newTok()
+		cv := newTok()
+		okv := newTok()
+		var lhs ast.Expr = ast.NewIdent("_")
+		asg := token.DEFINE
+		if rs.Key != nil {
+			lhs = rs.Key
+			if rs.Tok == token.ASSIGN {
+				asg = token.ASSIGN
+			}
+		}
+		var recv ast.Stmt
+		if asg == token.ASSIGN {
+			// v is an existing variable: receive into temporaries, then assign
+			vv := newTok()
+			recv = &ast.BlockStmt{List: []ast.Stmt{}}
+			_ = vv
+			recv = &ast.AssignStmt{Lhs: []ast.Expr{vv, okv}, Tok: token.DEFINE, Rhs: []ast.Expr{&ast.UnaryExpr{Op: token.ARROW, X: cv}}}
+			body := append([]ast.Stmt{beginStmt(tok), recv, endStmt(tok),
+				&ast.IfStmt{Cond: &ast.UnaryExpr{Op: token.NOT, X: okv}, Body: &ast.BlockStmt{List: []ast.Stmt{&ast.BranchStmt{Tok: token.BREAK}}}},
+				&ast.AssignStmt{Lhs: []ast.Expr{lhs}, Tok: token.ASSIGN, Rhs: []ast.Expr{vv}}}, rs.Body.List...)
+			loop := ast.Stmt(&ast.ForStmt{Body: &ast.BlockStmt{List: body}})
+			if label != nil {
+				loop = &ast.LabeledStmt{Label: label, Stmt: loop}
+			}
+			return &ast.BlockStmt{List: []ast.Stmt{&ast.AssignStmt{Lhs: []ast.Expr{cv}, Tok: token.DEFINE, Rhs: []ast.Expr{rs.X}}, loop}}
+		}
+		recv = &ast.AssignStmt{Lhs: []ast.Expr{lhs, okv}, Tok: token.DEFINE, Rhs: []ast.Expr{&ast.UnaryExpr{Op: token.ARROW, X: cv}}}
+		body := []ast.Stmt{beginStmt(tok), recv, endStmt(tok),
+			&ast.IfStmt{Cond: &ast.UnaryExpr{Op: token.NOT, X: okv}, Body: &ast.BlockStmt{List: []ast.Stmt{&ast.BranchStmt{Tok: token.BREAK}}}}}
+		if id, ok := lhs.(*ast.Ident); ok && id.Name != "_" {
+			body = append(body, &ast.AssignStmt{Lhs: []ast.Expr{ast.NewIdent("_")}, Tok: token.ASSIGN, Rhs: []ast.Expr{lhs}})
+		}
+		body = append(body, rs.Body.List...)
+		loop := ast.Stmt(&ast.ForStmt{Body: &ast.BlockStmt{List: body}})
+		if label != nil {
+			loop = &ast.LabeledStmt{Label: label, Stmt: loop}
+		}
+		return &ast.BlockStmt{List: []ast.Stmt{&ast.AssignStmt{Lhs: []ast.Expr{cv}, Tok: token.DEFINE, Rhs: []ast.Expr{rs.X}}, loop}}
+	}
+	// selectRewrite takes Go's own random choice among ready cases away from the runtime:
+	// the cases are first polled one by one, without blocking, in an order the simulator
+	// draws (simrt.SelectOrder); only if none is ready does the goroutine block in the real
+	// select, bracketed as a scheduling point — and then at most one case can become ready
+	// at a time, because only the baton holder makes progress. Channel operands and sent
+	// values are evaluated once, up front, as the language specifies.
+	selectRewrite := func(st *ast.SelectStmt) []ast.Stmt {
+		var pre []ast.Stmt
+		idx := newTok()
+		pre = append(pre, &ast.AssignStmt{Lhs: []ast.Expr{idx}, Tok: token.DEFINE, Rhs: []ast.Expr{&ast.UnaryExpr{Op: token.SUB, X: intLit(1)}}})
+		type caseInfo struct {
+			comm   func() ast.Stmt // fresh copy of the communication, using hoisted operands
+			bind   []ast.Stmt      // statements that bind the received values in the body
+			body   []ast.Stmt
+			isDflt bool
+		}
+		var cases []caseInfo
+		dflt := -1
+		for i, cl := range st.Body.List {
+			cc := cl.(*ast.CommClause)
+			ci := caseInfo{body: cc.Body}
+			switch c := cc.Comm.(type) {
+			case nil:
+				ci.isDflt = true
+				dflt = i
+			case *ast.SendStmt:
+				ch, val := newTok(), newTok()
+				pre = append(pre, &ast.AssignStmt{Lhs: []ast.Expr{ch}, Tok: token.DEFINE, Rhs: []ast.Expr{c.Chan}},
+					&ast.AssignStmt{Lhs: []ast.Expr{val}, Tok: token.DEFINE, Rhs: []ast.Expr{c.Value}})
+				ci.comm = func() ast.Stmt { return &ast.SendStmt{Chan: ch, Value: val} }
+			case *ast.ExprStmt: // case <-ch:
+				ue, ok := c.X.(*ast.UnaryExpr)
+				if !ok || ue.Op != token.ARROW {
+					die("unsupported select case at", l.relPos(c.Pos()))
+				}
+				ch := newTok()
+				pre = append(pre, &ast.AssignStmt{Lhs: []ast.Expr{ch}, Tok: token.DEFINE, Rhs: []ast.Expr{ue.X}})
+				ci.comm = func() ast.Stmt { return &ast.ExprStmt{X: &ast.UnaryExpr{Op: token.ARROW, X: ch}} }
+			case *ast.AssignStmt: // case v := <-ch:  /  case v, ok = <-ch:
+				ue, ok := c.Rhs[0].(*ast.UnaryExpr)
+				if !ok || ue.Op != token.ARROW {
+					die("unsupported select case at", l.relPos(c.Pos()))
+				}
+				ch, vv, okv := newTok(), newTok(), newTok()
+				pre = append(pre, &ast.AssignStmt{Lhs: []ast.Expr{ch}, Tok: token.DEFINE, Rhs: []ast.Expr{ue.X}},
+					&ast.AssignStmt{Lhs: []ast.Expr{vv}, Tok: token.DEFINE, Rhs: []ast.Expr{&ast.CallExpr{Fun: simSel("ZeroOf"), Args: []ast.Expr{ch}}}},
+					&ast.AssignStmt{Lhs: []ast.Expr{okv}, Tok: token.DEFINE, Rhs: []ast.Expr{ast.NewIdent("false")}},
+					&ast.AssignStmt{Lhs: []ast.Expr{ast.NewIdent("_"), ast.NewIdent("_")}, Tok: token.ASSIGN, Rhs: []ast.Expr{vv, okv}})
+				ci.comm = func() ast.Stmt {
+					return &ast.AssignStmt{Lhs: []ast.Expr{vv, okv}, Tok: token.ASSIGN, Rhs: []ast.Expr{&ast.UnaryExpr{Op: token.ARROW, X: ch}}}
+				}
+				rhs := []ast.Expr{vv}
+				if len(c.Lhs) == 2 {
+					rhs = append(rhs, okv)
+				}
+				ci.bind = []ast.Stmt{&ast.AssignStmt{Lhs: c.Lhs, Tok: c.Tok, Rhs: rhs}}
+				if c.Tok == token.DEFINE {
+					for _, lh := range c.Lhs {
+						if id, ok := lh.(*ast.Ident); ok && id.Name != "_" {
+							ci.bind = append(ci.bind, &ast.AssignStmt{Lhs: []ast.Expr{ast.NewIdent("_")}, Tok: token.ASSIGN, Rhs: []ast.Expr{id}})
+						}
+					}
+				}
+			default:
+				die("unsupported select case at", l.relPos(cc.Pos()))
+			}
+			cases = append(cases, ci)
+		}
+		setIdx := func(i int) ast.Stmt {
+			return &ast.AssignStmt{Lhs: []ast.Expr{idx}, Tok: token.ASSIGN, Rhs: []ast.Expr{intLit(i)}}
+		}
+		// polling phase
+		kv := newTok()
+		var pollCases []ast.Stmt
+		nComm := 0
+		for i, ci := range cases {
+			if ci.isDflt {
+				continue
+			}
+			nComm++
+			poll := &ast.SelectStmt{Body: &ast.BlockStmt{List: []ast.Stmt{
+				&ast.CommClause{Comm: ci.comm(), Body: []ast.Stmt{setIdx(i)}},
+				&ast.CommClause{Comm: nil},
+			}}}
+			pollCases = append(pollCases, &ast.CaseClause{List: []ast.Expr{intLit(i)}, Body: []ast.Stmt{poll}})
+		}
+		order := &ast.CallExpr{Fun: simSel("SelectOrder"), Args: []ast.Expr{intLit(len(cases))}}
+		pollLoop := &ast.RangeStmt{Key: ast.NewIdent("_"), Value: kv, Tok: token.DEFINE, X: order, Body: &ast.BlockStmt{List: []ast.Stmt{
+			&ast.SwitchStmt{Tag: kv, Body: &ast.BlockStmt{List: pollCases}},
+			&ast.IfStmt{Cond: &ast.BinaryExpr{X: idx, Op: token.GEQ, Y: intLit(0)}, Body: &ast.BlockStmt{List: []ast.Stmt{&ast.BranchStmt{Tok: token.BREAK}}}},
+		}}}
+		if nComm > 0 {
+			pre = append(pre, pollLoop)
+		}
+		// nothing ready: default, or block for real
+		var elseBody []ast.Stmt
+		if dflt >= 0 {
+			elseBody = []ast.Stmt{setIdx(dflt)}
+		} else {
+			tok := newTok()
+			var blk []ast.Stmt
+			for i, ci := range cases {
+				blk = append(blk, &ast.CommClause{Comm: ci.comm(), Body: []ast.Stmt{setIdx(i)}})
+			}
+			elseBody = []ast.Stmt{beginStmt(tok), &ast.SelectStmt{Body: &ast.BlockStmt{List: blk}}, endStmt(tok)}
+		}
+		pre = append(pre, &ast.IfStmt{Cond: &ast.BinaryExpr{X: idx, Op: token.LSS, Y: intLit(0)}, Body: &ast.BlockStmt{List: elseBody}})
+		// the chosen case's body
+		var bodies []ast.Stmt
+		for i, ci := range cases {
+			bodies = append(bodies, &ast.CaseClause{List: []ast.Expr{intLit(i)}, Body: append(append([]ast.Stmt{}, ci.bind...), ci.body...)})
+		}
+		pre = append(pre, &ast.SwitchStmt{Tag: idx, Body: &ast.BlockStmt{List: bodies}})
+		// one block, so that hoisted names do not leak (bodies keep their own scope in the switch)
+		return []ast.Stmt{&ast.BlockStmt{List: pre}}
+	}
+
+	bracket := func(out []ast.Stmt, s ast.Stmt) []ast.Stmt {
+		tok := newTok()
+		return append(out, beginStmt(tok), s, endStmt(tok))
+	}
+
 	rewriteStmts = func(list []ast.Stmt) []ast.Stmt {
-		for i, s := range list {
+		var out []ast.Stmt
+		for _, s := range list {
 			switch st := s.(type) {
 			case *ast.RangeStmt:
 				visit(st.X)
 				visit(st.Body)
 				st.Body.List = append([]ast.Stmt{tickStmt()}, st.Body.List...)
-				if r := rewriteRange(st, nil); r != nil {
-					list[i] = r
+				if isChan(st.X) {
+					out = append(out, chanRange(st, nil))
+				} else if r := rewriteRange(st, nil); r != nil {
+					out = append(out, r)
+				} else {
+					out = append(out, st)
 				}
 			case *ast.LabeledStmt:
 				if rs, ok := st.Stmt.(*ast.RangeStmt); ok {
 					visit(rs.X)
 					visit(rs.Body)
 					rs.Body.List = append([]ast.Stmt{tickStmt()}, rs.Body.List...)
-					if r := rewriteRange(rs, st.Label); r != nil {
-						list[i] = r
+					if isChan(rs.X) {
+						out = append(out, chanRange(rs, st.Label))
+					} else if r := rewriteRange(rs, st.Label); r != nil {
+						out = append(out, r)
+					} else {
+						out = append(out, st)
 					}
 				} else {
 					visit(st)
+					out = append(out, st)
 				}
 			case *ast.GoStmt:
 				visit(st.Call)
-				list[i] = &ast.ExprStmt{X: &ast.CallExpr{Fun: simSel("Go"), Args: []ast.Expr{
-					&ast.FuncLit{Type: &ast.FuncType{Params: &ast.FieldList{}}, Body: &ast.BlockStmt{List: []ast.Stmt{&ast.ExprStmt{X: st.Call}}}},
-				}}}
+				out = append(out, goCall(st.Call))
+			case *ast.SendStmt:
+				visit(st)
+				out = bracket(out, st)
+			case *ast.SelectStmt:
+				visit(st)
+				out = append(out, selectRewrite(st)...)
+			case *ast.ExprStmt, *ast.AssignStmt:
+				visit(s)
+				name, call := syncCall(s)
+				switch {
+				case name == "Go" && len(call.Args) == 1:
+					// wg.Go(f)  =>  wg.Add(1); simrt.Go(func(){ defer wg.Done(); f() })
+					wg := call.Fun.(*ast.SelectorExpr).X
+					fv := newTok()
+					out = append(out,
+						&ast.AssignStmt{Lhs: []ast.Expr{fv}, Tok: token.DEFINE, Rhs: []ast.Expr{call.Args[0]}},
+						&ast.ExprStmt{X: &ast.CallExpr{Fun: &ast.SelectorExpr{X: wg, Sel: ast.NewIdent("Add")}, Args: []ast.Expr{intLit(1)}}},
+						&ast.ExprStmt{X: &ast.CallExpr{Fun: simSel("Go"), Args: []ast.Expr{&ast.FuncLit{Type: &ast.FuncType{Params: &ast.FieldList{}}, Body: &ast.BlockStmt{List: []ast.Stmt{
+							&ast.DeferStmt{Call: &ast.CallExpr{Fun: &ast.SelectorExpr{X: wg, Sel: ast.NewIdent("Done")}}},
+							&ast.ExprStmt{X: &ast.CallExpr{Fun: fv}},
+						}}}}}})
+				case name != "" && name != "Go":
+					out = bracket(out, s)
+				case containsRecv(s):
+					out = bracket(out, s)
+				default:
+					out = append(out, s)
+				}
 			default:
 				visit(s)
+				if _, isDecl := s.(*ast.DeclStmt); !isDecl && containsRecvShallow(s) {
+					fmt.Fprintf(os.Stderr, "siminstr: note: receive inside a %T at %s is not bracketed by a scheduling point\n", s, l.relPos(s.Pos()))
+				}
+				out = append(out, s)
 			}
 		}
-		return list
+		return out
 	}
 
 	visit = func(n ast.Node) {
@@ -357,6 +649,59 @@ func rewriteFile(l *loader, pi *pkgInfo, f *ast.File) {
 			}
 		}
 	}
+}
+
+// containsRecvShallow looks for a channel receive in the header of a compound statement or
+// in a return statement (places where R8 does not insert a scheduling point).
+func containsRecvShallow(s ast.Stmt) bool {
+	has := func(n ast.Node) bool {
+		if n == nil {
+			return false
+		}
+		found := false
+		ast.Inspect(n, func(m ast.Node) bool {
+			switch x := m.(type) {
+			case *ast.FuncLit:
+				return false
+			case *ast.UnaryExpr:
+				if x.Op == token.ARROW {
+					found = true
+				}
+			}
+			return !found
+		})
+		return found
+	}
+	switch x := s.(type) {
+	case *ast.ReturnStmt:
+		for _, e := range x.Results {
+			if has(e) {
+				return true
+			}
+		}
+	case *ast.IfStmt:
+		if x.Init != nil && has(x.Init) {
+			return true
+		}
+		return has(x.Cond)
+	case *ast.ForStmt:
+		if x.Init != nil && has(x.Init) {
+			return true
+		}
+		if x.Cond != nil && has(x.Cond) {
+			return true
+		}
+	case *ast.SwitchStmt:
+		if x.Init != nil && has(x.Init) {
+			return true
+		}
+		if x.Tag != nil && has(x.Tag) {
+			return true
+		}
+	case *ast.DeferStmt:
+		return has(x.Call)
+	}
+	return false
 }
 
 func addImport(f *ast.File, path string) {
